@@ -474,7 +474,7 @@ func checkC15Proc(c ProcCase, r *rec.Rec) error {
 }
 
 func genC15Proc(t *rapid.T) ProcCase {
-	pc := genPairCase(t, []string{"list", "set", "set", "mset", "mset", "setkeys:id", "merge", "set+merge", "set+mset", "set+mset", "set+mset+merge"}, func(p *gen.Profile) {
+	pc := genPairCase(t, []string{"list", "set", "set", "mset", "mset", "setkeys:id", "merge", "set+merge", "set+mset", "set+mset", "set+mset", "set+mset", "set+mset+merge"}, func(p *gen.Profile) {
 		p.MaxObj = 6
 		p.VoidRoot = false
 		p.Big = 35
